@@ -47,10 +47,15 @@ structure GSt where
 
 def newLabel (ctr : Nat) : Label := "new_" ++ hex32 ctr
 
-/-- `while circuit.has_gate(ans) or ans in other_restrictions: redraw` -/
+/-- `while circuit.has_gate(ans) or ans in other_restrictions: redraw`.  A label is `uuid4().hex`: 32 hex
+digits, i.e. a 128-bit value; the pinned counter stands for the sequence of values drawn.  Once the counter
+leaves the 128-bit range there is no further label to draw (`LabelSpaceExhausted`; never reached by any run
+the correspondence executes — it is what makes the totality theorems of `Proofs/GenTotal*.lean` honest about
+the one way a generator can fail to return on valid arguments). -/
 def freshLoop (c : Circuit) (restr : List Label) : Nat → Nat → R (Label × Nat)
   | 0, _ => .error "fuel"
   | fuel + 1, ctr =>
+    if 16 ^ 32 ≤ ctr then .error "LabelSpaceExhausted" else
     let l := newLabel ctr
     if c.hasGate l || restr.contains l then freshLoop c restr fuel (ctr + 1) else .ok (l, ctr + 1)
 
